@@ -1,5 +1,6 @@
 import Hive.Proofs.SerixCanonical
 import Hive.Proofs.SerixPrim
+import Hive.Proofs.SerixCanonicalValidators
 import Hive.Gen.C03_Consts
 import Hive.Gen.C03_Skel
 /-!
@@ -472,6 +473,71 @@ theorem C03_skeleton_type_codes :
   decide
 
 end Regenerated
+
+/-! ## The exported validators of serializer/serializable.go, one by one
+
+`Hive/Model/SerixC03Validators.lean` has one state machine per validator constructor (driven directly by the `x val` /
+`x evf` lines of `harness/c03/prim`, refusals included); the theorems say what each accepts, for every sequence of byte
+strings — so for every type code `0..255` of the byte denotation and the whole `uint32` range of the word denotation. -/
+
+section Validators
+open VX
+
+/-- `ElementUniqueValidator` accepts exactly the sequences of pairwise different elements. -/
+theorem C03_validator_unique (xs : List Bytes) : accepts .uniq {} xs = true ↔ xs.Nodup :=
+  uniq_accepts_iff xs
+
+/-- `LexicalOrderValidator` accepts exactly the ascending sequences (byte-lexical order, duplicates allowed). -/
+theorem C03_validator_lex (xs : List Bytes) :
+    accepts .lex {} xs = true ↔ xs.Pairwise (fun a b => lexLe a b = true) :=
+  lex_accepts_iff xs
+
+/-- `LexicalOrderWithoutDupsValidator` accepts exactly the strictly ascending sequences — which is "ascending and
+pairwise different": the shortcut `ElementValidationFunc` takes for `NoDuplicates | LexicalOrdering` decides the rule
+that the two separate validators would decide. -/
+theorem C03_validator_lex_nodups (xs : List Bytes) :
+    (accepts .lexNd {} xs = true ↔ xs.Pairwise (fun a b => lexLt a b = true)) ∧
+    (accepts .lexNd {} xs = true ↔ (accepts .lex {} xs = true ∧ accepts .uniq {} xs = true)) :=
+  ⟨lexNd_accepts_iff xs, lexNd_accepts_iff_lex_and_uniq xs⟩
+
+/-- `AtMostOneOfEachTypeValidator(denotation of w bytes)` accepts exactly the sequences whose elements all carry a type
+code (at least `w` bytes) and whose type codes — the first `w` bytes as a little-endian number — are pairwise
+different.  `w = 1`: all 256 byte codes; `w = 4`: all of `uint32`. -/
+theorem C03_validator_type_codes (w : Nat) (xs : List Bytes) :
+    accepts (.one w) {} xs = true ↔
+      (∀ x ∈ xs, w ≤ x.length) ∧ (xs.map (fun x => leNat (x.take w))).Nodup :=
+  one_accepts_iff_codes w xs
+
+/-- A refusal records nothing (the closure's variables are as before the call), and "no element refused" is the
+acceptance the chains ask for. -/
+theorem C03_validator_refusal (k : VKind) (s : S) (x : Bytes) (xs : List Bytes) :
+    ((step k s x).2.isSome = true → (step k s x).1 = s) ∧
+    accepts k s xs = (feed k s xs).all (·.isNone) :=
+  ⟨step_refuse k s x, accepts_eq_feed k s xs⟩
+
+/-- `ElementValidationFunc`: the chained function accepts iff every validator it chains accepts, and that is the
+declarative `validSeq` the codec theorems (`C03_canonical`, `C03_rules_exact`) are about. -/
+theorem C03_validation_func_chain (r : Rules) (xs : List Bytes) :
+    chainAccepts (chainInit r) xs = ((chainInit r).all fun p => accepts p.1 p.2 xs) ∧
+    chainAccepts (chainInit r) xs = validSeq r xs :=
+  ⟨chainAccepts_eq _ xs, chain_accepts_iff_validSeq r xs⟩
+
+/-- `ArrayRules.CheckBounds`, `TypePrefixes.Subset`, the `LexicalOrdered*` sort helpers. -/
+theorem C03_bounds_subset_sort (mn mx n : Nat) (a b : List Nat) (l : List Bytes) :
+    (boundsErr { min := mn, max := mx } n = none ↔ ((mn = 0 ∨ mn ≤ n) ∧ (mx = 0 ∨ n ≤ mx))) ∧
+    (subset a b = true ↔ ∀ x ∈ a, x ∈ b) ∧
+    ((sortLex l).Perm l ∧ (sortLex l).Pairwise (fun x y => lexLe x y = true)) :=
+  ⟨checkBounds_iff mn mx n, subset_iff a b, sortLex_spec l⟩
+
+/-- Type codes 64 and 200 are remembered like every other code; a word differing in its top byte is another type. -/
+theorem C03_validator_example :
+    feed (.one 1) {} [[64, 1], [200], [64, 2], [200, 0]] = [none, none, some .arrTypeUnique, some .arrTypeUnique] ∧
+    feed (.one 4) {} [[1, 2, 3, 4], [1, 2, 3, 5], [1, 2, 3, 4, 9], [1, 2, 3]] = [none, none, some .arrTypeUnique, some .invalidBytes] ∧
+    feed .lexNd {} [[1], [1, 0], [1, 0], [0], [2]] = [none, none, some .arrUnique, some .arrOrder, none] ∧
+    chainFeed (chainInit { noDups := true, one8 := true }) [[7, 1], [7, 2], [7, 1]] = [none, some .arrTypeUnique, some .arrUnique] := by
+  decide
+
+end Validators
 
 /-! ## Non-vacuity of `C03_canonical` -/
 
